@@ -135,6 +135,8 @@ type Config struct {
 
 // Exec is one symbolic execution of a harness instance.
 type Exec struct {
+	// NGo counts executed go statements (a run with goroutines is schedule-dependent natively)
+	NGo      int
 	started  time.Time
 	Prog     *ssa.Program
 	tb       *TB
